@@ -335,11 +335,61 @@ let run_q args =
     String.concat " " descr ^ " | " ^ String.concat "," rows
   end
 
+(* ------------------------------------------------------------------------------------------ *)
+(* `D <events>` (C19): display / debug *)
+let utf8_of_cp (c : int) : string =
+  let b = Buffer.create 4 in
+  if c < 0x80 then Buffer.add_char b (Char.chr c)
+  else if c < 0x800 then (Buffer.add_char b (Char.chr (0xC0 lor (c lsr 6))); Buffer.add_char b (Char.chr (0x80 lor (c land 0x3F))))
+  else if c < 0x10000 then (Buffer.add_char b (Char.chr (0xE0 lor (c lsr 12))); Buffer.add_char b (Char.chr (0x80 lor ((c lsr 6) land 0x3F))); Buffer.add_char b (Char.chr (0x80 lor (c land 0x3F))))
+  else (Buffer.add_char b (Char.chr (0xF0 lor (c lsr 18))); Buffer.add_char b (Char.chr (0x80 lor ((c lsr 12) land 0x3F))); Buffer.add_char b (Char.chr (0x80 lor ((c lsr 6) land 0x3F))); Buffer.add_char b (Char.chr (0x80 lor (c land 0x3F))));
+  Buffer.contents b
+
+(* Rust's <str as Debug>, for the alphabet the generators use (printable characters, quotes,
+   backslash, \n, \t, \r) *)
+let escape_debug (t : text) : string =
+  "\"" ^ String.concat "" (List.map (fun c -> match int_of_n c with
+      | 34 -> "\\\"" | 92 -> "\\\\" | 10 -> "\\n" | 9 -> "\\t" | 13 -> "\\r" | 0 -> "\\0"
+      | c -> utf8_of_cp c) t) ^ "\""
+
+let debug_flat g strs rs (p : pos) : string =
+  let s = int_of_n (offset_of rs p) in
+  let head = Printf.sprintf "K(%d)@%d..%d" (match subr g p with Some e -> int_of_n (gkind e) | None -> -1) s (s + int_of_n (len_at g p)) in
+  match subr g p with
+  | Some (GTok (_, k, key, _)) ->
+    let txt = match tok_text static_text strs k key with Some x -> x | None -> [] in
+    (match abbrev abbrev_len abbrev_lo abbrev_hi txt with
+     | Ok x -> head ^ " " ^ escape_debug x
+     | Panic q -> "PANIC:" ^ panic_code q)
+  | _ -> head
+
+let run_d args =
+  match build_in empty_cache args with
+  | None -> "BUILD-PANIC"
+  | Some (g, c) ->
+    let strs = c.c_strs in
+    let (evs, rs) = preorder g false [] [] in
+    let elems = List.filter_map (function Enter p -> Some p | Leave _ -> None) evs in
+    let per = List.map (fun p ->
+        let d = debug_flat g strs rs p in
+        if String.length d >= 6 && String.sub d 0 6 = "PANIC:" then d
+        else d ^ " => " ^ show_text (display_of static_text strs g (fst (preorder g false rs p)))) elems in
+    let (lines, lvl) = debug_lines evs O in
+    let recd =
+      if int_of_nat lvl <> 0 then "REC PANIC:N"
+      else begin
+        let ls = List.map (fun (l, p) -> String.make (2 * int_of_nat l) ' ' ^ debug_flat g strs rs p) lines in
+        if List.exists (fun l -> let t = String.trim l in String.length t >= 6 && String.sub t 0 6 = "PANIC:") ls
+        then "REC PANIC:!" else "REC " ^ String.concat "" (List.map (fun l -> l ^ "\xc2\xb6") ls)
+      end in
+    String.concat " ; " (per @ [recd])
+
 let run_line line =
   match List.filter (fun s -> s <> "") (String.split_on_char ' ' line) with
   | [] -> ""
   | "B" :: args -> run_b args
   | "H" :: args -> run_h args
+  | "D" :: args -> run_d args
   | "G" :: args -> run_g args
   | "Y" :: args -> run_y args
   | "I" :: args -> run_i args
